@@ -97,7 +97,7 @@ def denote(A):
                         for pi, p in enumerate(ev["p"]):
                             step, alter, octave, tie = p[0], p[1], p[2], bool(p[3]) if len(p) > 3 else False
                             note = {"id": ev["id"] if k != "c" else f"{ev['id']}n{pi}", "on": t, "dur": dur,
-                                    "step": step, "alter": alter, "oct": octave, "voice": v, "staff": sn,
+                                    "step": step, "alter": alter, "oct": octave, "voice": v, "staff": dict(map(tuple, ev.get("xs", []))).get(pi, sn),
                                     "grace": k == "g", "tie_prev": None, "tie_next": None, "info": ctxinfo,
                                     "chord": k == "c"}
                             key = (step, alter or 0, octave)
